@@ -3,7 +3,7 @@
  *   pchild exit N [out K]            write K position-coded stdout bytes, then exit(N)
  *   pchild signal SIG [out K]        write K stdout bytes, then kill itself with SIG (INT KILL TERM SEGV ABRT PIPE HUP QUIT)
  *   pchild out N [err M] [exit C]    N stdout bytes and M stderr bytes, interleaved in chunks (1000 / 700), then exit(C)
- *   pchild close-then-linger         write 10 stdout bytes, close stdout+stderr, sleep ~50 ms, exit 3
+ *   pchild close-then-linger [MS]    write 10 stdout bytes, close stdout+stderr, sleep ~50 (MS) ms, exit 3
  *   pchild env KEY                   print "KEY=<value>\n" or "KEY unset\n"
  *   pchild cwd                       print the working directory
  *   pchild touch PATH                create PATH, exit 0
@@ -130,7 +130,7 @@ int main(int argc, char** argv) {
   if (!strcmp(m, "close-then-linger")) {
     emit(1, 0, 10, 0);
     close(1); close(2);
-    msleep(50);
+    msleep(argc >= 3 ? atoi(argv[2]) : 50);
     _exit(3);
   }
   if (!strcmp(m, "env") && argc >= 3) {
